@@ -33,10 +33,21 @@ func progDisk(sp *ProgSpec) *DiskSpec {
 // NewProgSet creates a set over disk 0 of the world with the program's options.
 func (w *World) NewProgSet(sp *ProgSpec, name, loaderKind string) *pongo2.TemplateSet {
 	set := pongo2.NewSet(name, w.MakeLoader(0, LoaderSpec{Kind: loaderKind, Disk: 0}))
-	set.Options.TrimBlocks = sp.TrimBlocks
-	set.Options.LStripBlocks = sp.LStripBlocks
+	if !sp.OptsOnTemplate {
+		set.Options.TrimBlocks = sp.TrimBlocks
+		set.Options.LStripBlocks = sp.LStripBlocks
+	}
 	set.Globals["glob"] = "G<" + name + ">"
 	return set
+}
+
+// ApplyTplOptions is what a caller does who configures the options per template: it
+// must happen before the template is shared with other goroutines.
+func (sp *ProgSpec) ApplyTplOptions(tpl *pongo2.Template) {
+	if sp.OptsOnTemplate && tpl != nil {
+		tpl.Options.TrimBlocks = sp.TrimBlocks
+		tpl.Options.LStripBlocks = sp.LStripBlocks
+	}
 }
 
 type ExecResult struct {
